@@ -618,6 +618,7 @@ impl Sim for SimA {
         let n_ord = sc.orders.len();
         let mut model: Vec<M> = vec![M::Untracked; n_ord];
         let mut ever_tracked = vec![false; n_ord];
+        let mut data_dropped_by_cancel = vec![false; n_ord];
         let mut last_ord: Option<usize> = None;
         let mut del = Delivered {
             bal: vec![Vec::new(); w.n_assets()],
@@ -1073,9 +1074,21 @@ impl Sim for SimA {
                     if now.tracked() {
                         ever_tracked[ord] = true;
                     }
+                    // exchange data thrown away by a mere cancel request while the order stays tracked
+                    // (never happens on the recorded tree): what follows is not the recorded finding
+                    if views_before[ord].data().is_some()
+                        && now.data().is_none()
+                        && now.tracked()
+                        && order_steps.iter().filter(|(o, _)| *o == ord).all(|(_, sop)| matches!(sop, OpA::CancelSent { .. }))
+                    {
+                        data_dropped_by_cancel[ord] = true;
+                    }
                     let Some(held) = now.data() else { continue };
                     let delivered = del.open[ord].contains(held);
                     let newest = del.max_t[ord].is_none_or(|m| held.t >= m);
+                    if delivered && newest {
+                        data_dropped_by_cancel[ord] = false;
+                    }
                     if !(delivered && newest) {
                         // with several reports for this order inside one event, an earlier item
                         // may have ended tracking (terminal report) before the stale one arrived
@@ -1094,7 +1107,7 @@ impl Sim for SimA {
                                 }
                         });
                         let had_data = views_before[ord].data().is_some() && !ended_within_event;
-                        let key = if !had_data && delivered {
+                        let key = if !had_data && delivered && !data_dropped_by_cancel[ord] {
                             // engine keeps no memory of finished / re-requested orders (D5)
                             Some("C09-stale-open-retracks-order-without-held-data")
                         } else {
